@@ -2,7 +2,13 @@
  * wrappers.  Frames: the table object, the recycled free item, the bucket cell / chain back
  * pointer that changes, and the link fields of the order-list neighbours. */
 #include "nvc.h"
+#ifdef NV_HASHSET
+struct HItem_L { long key; struct HItem_L** cell; struct HItem_L* nextCell; struct HItem_L* prev; struct HItem_L* next; };
+#define HIT_VALUE_TARGET
+#else
 struct HItem_L { long key; long value; struct HItem_L** cell; struct HItem_L* nextCell; struct HItem_L* prev; struct HItem_L* next; };
+#define HIT_VALUE_TARGET gv_hit != 0: HI(gv_hit)->value;
+#endif
 struct HMap_L { struct HItem_L* _end; struct HItem_L* _begin; usize _size; usize capacity; struct HItem_L** data; struct HItem_L endItem; struct HItem_L* freeItem; void* blocks; };
 #define HM(p) ((struct HMap_L*)(p))
 #define HI(p) ((struct HItem_L*)(p))
@@ -21,7 +27,7 @@ __CPROVER_assigns(__CPROVER_object_whole(m); HI(posItem)->prev;
                   HM(m)->freeItem != 0: __CPROVER_object_whole(HM(m)->freeItem);
                   __CPROVER_object_upto(gv_data, NV_CAP * sizeof(void*));
                   gv_c1 != 0: HI(gv_c1)->cell;
-                  gv_hit != 0: HI(gv_hit)->value;
+                  HIT_VALUE_TARGET
                   gv_Q != 0: HI(gv_Q)->next)
 ;
 void* w_HashMap_remove(void* m, void* item)
